@@ -51,13 +51,75 @@ class Outcome:
                     todo.append(nested[c.id])
         return out
 
+    def expanded_key(self):
+        """The key as one expression over its parameter: calls of helper functions that are values in the environment of the
+        sorted() call (nested defs, lambdas, names bound to them per branch) are replaced by their bodies, local aliases inside
+        one-return helpers are substituted, and tuple concatenations are flattened.  -> (expr, param name) or (None, None)"""
+        import copy
+        s = self.sorted_call
+        if s is None or not isinstance(s.key, FuncV):
+            return None, None
+        env = s.env
+
+        def body_of(fn_node):
+            """-> (params, return expression with the def's local single assignments substituted) or None"""
+            if isinstance(fn_node, ast.Lambda):
+                return [a.arg for a in fn_node.args.args], fn_node.body
+            stmts = [b for b in fn_node.body if not (isinstance(b, ast.Expr) and isinstance(b.value, ast.Constant))]
+            if not stmts or not isinstance(stmts[-1], ast.Return) or stmts[-1].value is None:
+                return None
+            sub = {}
+            for b in stmts[:-1]:
+                if isinstance(b, ast.Assign) and len(b.targets) == 1 and isinstance(b.targets[0], ast.Name):
+                    sub[b.targets[0].id] = subst(copy.deepcopy(b.value), sub)
+                else:
+                    return None
+            return [a.arg for a in fn_node.args.args], subst(copy.deepcopy(stmts[-1].value), sub)
+
+        def subst(e, mapping):
+            bound = {x.id for c in ast.walk(e) if isinstance(c, ast.comprehension) for x in ast.walk(c.target) if isinstance(x, ast.Name)}
+
+            class T(ast.NodeTransformer):
+                def visit_Name(self, n):
+                    if isinstance(n.ctx, ast.Load) and n.id in mapping and n.id not in bound:
+                        return copy.deepcopy(mapping[n.id])
+                    return n
+            return T().visit(e)
+
+        def expand(e, depth=0):
+            class X(ast.NodeTransformer):
+                def visit_Call(self, c):
+                    c = self.generic_visit(c)
+                    fv = env.get(c.func.id) if isinstance(c.func, ast.Name) else None
+                    if isinstance(fv, FuncV) and depth < 5 and not c.keywords:
+                        b = body_of(fv.node)
+                        if b is not None and len(b[0]) == len(c.args):
+                            return expand(subst(copy.deepcopy(b[1]), dict(zip(b[0], c.args))), depth + 1)
+                    return c
+
+                def visit_BinOp(self, n):
+                    n = self.generic_visit(n)
+                    if isinstance(n.op, ast.Add) and isinstance(n.left, ast.Tuple) and isinstance(n.right, ast.Tuple):
+                        return ast.copy_location(ast.Tuple(elts=list(n.left.elts) + list(n.right.elts), ctx=ast.Load()), n)
+                    return n
+            return X().visit(e)
+        b = body_of(s.key.node)
+        if b is None or not b[0]:
+            return None, None
+        e = expand(copy.deepcopy(b[1]))
+        ast.fix_missing_locations(e)
+        return e, b[0][0]
+
     def lead(self):
         """-> (leading key expression, negated?) of the outermost sort, or (None, False)."""
         s = self.sorted_call
         if s is None or not isinstance(s.key, FuncV):
             return None, False
         n = s.key.node
-        if isinstance(n, ast.Lambda):
+        ek, _p = self.expanded_key()
+        if ek is not None:
+            e = ek
+        elif isinstance(n, ast.Lambda):
             e = n.body
         else:
             rets = [r for r in ast.walk(n) if isinstance(r, ast.Return)]
@@ -75,6 +137,9 @@ class Outcome:
         s = self.sorted_call
         if s is None or not isinstance(s.key, FuncV):
             return None
+        ek, p = self.expanded_key()
+        if ek is not None:
+            return p
         a = s.key.node.args.args
         return a[0].arg if a else None
 
@@ -137,7 +202,8 @@ class Outcome:
                     guarded.add(t[1:t.index("'", 1)])
         # subscripts evaluated on this path: those in statements the path executed (approximated by the function body
         # outside nested defs / other branches is path-sensitive only through the trace) -- so read them from the keys
-        for root in self.key_nodes():
+        ek, _p = self.expanded_key()
+        for root in self.key_nodes() + ([ek] if ek is not None else []):
             for n in ast.walk(root):
                 if isinstance(n, ast.Subscript) and isinstance(n.value, ast.Name) and n.value.id == kw and isinstance(n.slice, ast.Constant):
                     need.add(n.slice.value)
